@@ -19,7 +19,8 @@ EXPLANATION = (
     "P; R17.6 back-pointers - a raw non-owning pointer member that a copy operation on the copy path copies verbatim is re-bound to the "
     "copy's own object later in that function, after the call in a calling function on the copy path, or by its load(owner) member; "
     "R17.7 parameter state - every component member that SoPlexBase's parameter setters set (the second home of a parameter) is copied "
-    "by that component's operator= or re-applied after the copy. NOT "
+    "by that component's operator= or re-applied after the copy; R17.8 a member copy guarded by a _has<Name> flag copies the member "
+    "_<name>. NOT "
     "decided: bit-identical results of two runs, which depends on the arithmetic performed.")
 
 C = M.CLS
@@ -586,6 +587,33 @@ def run(fb, rep, tier):
                           '%s stores the parameter in %s, but %s::operator= does not copy %s and SoPlexBase::operator= does not re-apply the parameter: the copy reports the source\'s parameter value and works with the value the destination happened to have' % (g.short, sorted(w), g.cls.replace('soplex::', ''), miss))
     if n7 < 18:
         raise AnalysisBroken('R17.7: only %d component setters called by the parameter setters found' % n7)
+
+    # ------------------------------------------------------------------ R17.8
+    # guarded member copies name their own flag: `if(_hasX) _x = rhs._x;` copies the vector that the flag announces.  With the flag of
+    # another vector the copy reports "has X" and holds an empty X (or keeps a stale one).
+    rep.rule('R17.8', 'a member copy guarded by a _has<Name> flag copies the member _<name> (flag and vector belong together)', floor=4)
+    k8 = 0
+    for g in sorted(fb.funcs.values(), key=lambda h: (h.name, h.sig)):
+        if g.mk not in ('copyassign', 'copyctor') and not (g.short == 'operator=' and g.name.startswith('soplex::SolBase<')):
+            continue
+        if not g.name.startswith('soplex::') or not g.nodes:
+            continue
+        for n in g.nodes:
+            if n.k != 'IfStmt' or n.kid('else') is not None:
+                continue
+            m = re.match(r'^\(?(?:\w+(?:\.|->))?_has([A-Z]\w*)\)?$', render(n.kid('cond')))
+            if not m:
+                continue
+            want = '_' + m.group(1)[0].lower() + m.group(1)[1:]
+            asg = [x for x in n.kid('then').walk() if (x.k == 'BinaryOperator' or x.k == 'CXXOperatorCallExpr') and x.o == '=']
+            if len(asg) != 1:
+                continue
+            l = render(strip(asg[0].kids[0] if asg[0].k == 'BinaryOperator' else asg[0].args()[0]))
+            k8 += 1
+            rep.check(l == want, 'R17.8', '%s|if(_has%s)|%d' % (g.name.replace('soplex::', '')[:50], m.group(1), k8), '%s:%d' % (g.file, n.l), 'copies %s' % l,
+                      'the copy of %s is guarded by _has%s: the flag that is copied says "%s is available" while the vector copied under it is another one' % (l, m.group(1), want))
+    if k8 < 4:
+        raise AnalysisBroken('R17.8: only %d flag-guarded member copies found' % k8)
 
     # ------------------------------------------------------------------ R17.4
     rep.rule('R17.4', 'no nondeterminism source in library code: rand/srand/random_device/time seeding, foreign RNG engines, unordered-container iteration', floor=2)
